@@ -61,8 +61,13 @@ package sm2
 //@   fresh result
 //@   modifies nothing
 
+// C3 = SM3(x2 || M || y2) with the coordinates in the fixed width of the field (leading zeros kept)
 //@ func calculateC3 property C13,C07
 //@   requires curve != nil && x2 != nil && y2 != nil && len(msg) <= 4000000000
+//@   inlinecall sm3.New
+//@   assert before call Write#1: len(arg0) == (CURVEBITS(id(curve)) + 7) / 8 && BEV(arr(arg0), offof(arg0), len(arg0)) == ghost(bigv, x2)
+//@   assert before call Write#2: sameslice(arg0, msg)
+//@   assert before call Write#3: len(arg0) == (CURVEBITS(id(curve)) + 7) / 8 && BEV(arr(arg0), offof(arg0), len(arg0)) == ghost(bigv, y2)
 //@   modifies nothing
 
 //@ func rawDecrypt property C13,C07
